@@ -1,6 +1,171 @@
-(* Props/C15.v — the property theorems of C15 and nothing else. *)
+(* Props/C15.v — the property theorems of C15 and nothing else.
+   C15: built-in operators decide exactly their documented predicates; a leading '!' yields the
+   exact complement; capturing operators store the matched texts in TX.0-9. *)
 From Verif Require Import Base Utf8 Operators OperatorsProofs.
+From Coq Require Import String.
+Open Scope N_scope.
+Notation length := List.length (only parsing).
 
+(* ---- string operators (@streq @contains @strmatch @beginsWith @endsWith @within) ---- *)
+(* whatever the argument macro compiles to, the operator decides exactly the documented
+   predicate between the expanded argument and the value, for every value *)
+Theorem C15_string_ops_exact : forall o arg tx v toks,
+  is_str_op o = true -> macro_compile arg = Some toks ->
+  exists b, run_mop o arg tx v = Some b /\ (b = true <-> Spec.mop_str o (macro_expand tx toks) v).
+Proof. exact run_mop_str_exact. Qed.
+Print Assumptions C15_string_ops_exact.
+
+(* the scanner model of strings.Contains finds exactly the splits value = a ++ arg ++ b *)
+Theorem C15_contains_exact : forall s p, go_contains s p = true <-> exists a b, s = a ++ p ++ b.
+Proof. exact go_contains_iff. Qed.
+Print Assumptions C15_contains_exact.
+
+Theorem C15_beginsWith_exact : forall s p, go_has_prefix s p = true <-> exists b, s = p ++ b.
+Proof. exact go_has_prefix_iff. Qed.
+Print Assumptions C15_beginsWith_exact.
+
+Theorem C15_endsWith_exact : forall s p, go_has_suffix s p = true <-> exists a, s = a ++ p.
+Proof. exact go_has_suffix_iff. Qed.
+Print Assumptions C15_endsWith_exact.
+
+(* macro arguments: a text without '%' is taken literally; "%{tx.KEY}" is the value of TX:key *)
+Theorem C15_macro_literal : forall o arg tx v,
+  arg <> [] -> forallb (fun c => negb (c =? 37)) arg = true ->
+  run_mop o arg tx v = Some (eval_mop o arg v).
+Proof. exact run_mop_literal. Qed.
+Print Assumptions C15_macro_literal.
+
+Theorem C15_macro_tx_var : forall o key tx v,
+  key <> [] -> forallb key_char key = true ->
+  run_mop o (str "%{tx." ++ key ++ [125]) tx v
+  = Some (eval_mop o (match tx_get tx (lower_ascii key) with Some x => x | None => str "tx." ++ key end) v).
+Proof. exact run_mop_tx_var. Qed.
+Print Assumptions C15_macro_tx_var.
+
+(* ---- numeric comparisons (@eq @ge @gt @le @lt) ---- *)
+(* guard num_guard: the string is an optionally signed digit string, or junk whose leading digit
+   run is below 2^64 (see C15_numeric_overflow_junk_refuted for what happens outside) *)
+Theorem C15_numeric_exact_partial : forall o arg tx v toks,
+  is_num_op o = true -> macro_compile arg = Some toks ->
+  num_guard (macro_expand tx toks) = true -> num_guard v = true ->
+  run_mop o arg tx v = Some (Spec.mop_num o (macro_expand tx toks) v).
+Proof. exact run_mop_num_exact. Qed.
+Print Assumptions C15_numeric_exact_partial.
+
+Theorem C15_atoi_exact_partial : forall s, num_guard s = true -> atoi_val s = Spec.int_value s.
+Proof. exact atoi_val_exact. Qed.
+Print Assumptions C15_atoi_exact_partial.
+
+Theorem C15_numeric_overflow_junk_refuted : exists s, atoi_val s <> Spec.int_value s.
+Proof. exact atoi_overflow_junk_refuted. Qed.
+Print Assumptions C15_numeric_overflow_junk_refuted.
+
+(* ---- @pm, @pmFromFile, @pmFromDataset ---- *)
+(* on any phrase list: matches exactly when some listed phrase occurs ASCII-case-insensitively *)
+Theorem C15_pm_exact : forall ps capturing v,
+  fst (pm_eval ps capturing v) = true <-> Spec.pm ps v.
+Proof. exact pm_eval_exact. Qed.
+Print Assumptions C15_pm_exact.
+
+(* from the argument text (pure ASCII): some non-empty space-separated phrase occurs *)
+Theorem C15_pm_arg_exact_partial : forall tbl arg capturing v,
+  is_ascii arg = true ->
+  (fst (pm_eval (pm_phrases tbl arg) capturing v) = true
+   <-> exists p, In p (split_byte 32 arg) /\ p <> [] /\ Spec.occurs_ci p v).
+Proof. exact pm_arg_exact. Qed.
+Print Assumptions C15_pm_arg_exact_partial.
+
+Theorem C15_pm_nonascii_phrase_refuted :
+  exists arg v, fst (pm_eval (pm_phrases [] arg) false v) = false
+                /\ (exists p, In p (split_byte 32 arg) /\ p <> [] /\ Spec.occurs_ci p v).
+Proof. exact pm_nonascii_phrase_refuted. Qed.
+Print Assumptions C15_pm_nonascii_phrase_refuted.
+
+Theorem C15_pmFromDataset_exact : forall ds capturing v,
+  fst (pm_eval (pmd_phrases ds) capturing v) = true
+  <-> exists p, In p ds /\ p <> [] /\ Spec.occurs_ci p v.
+Proof. exact pmd_exact. Qed.
+Print Assumptions C15_pmFromDataset_exact.
+
+(* the length pre-check never hides a match *)
+Theorem C15_pm_minlen_sound : forall ps s,
+  (length s < min_pattern_len ps)%nat -> ~ Spec.pm ps s.
+Proof. exact pm_minlen_sound. Qed.
+Print Assumptions C15_pm_minlen_sound.
+
+(* captured texts: at most ten, each one an occurrence of a listed phrase inside the value *)
+Theorem C15_pm_captures_sound : forall ps v,
+  (length (snd (pm_eval ps true v)) <= 10)%nat /\
+  forall m, In m (snd (pm_eval ps true v)) ->
+    exists a b p, v = a ++ m ++ b /\ In p ps /\ lower_ascii m = lower_ascii p.
+Proof. exact pm_captures_sound. Qed.
+Print Assumptions C15_pm_captures_sound.
+
+Theorem C15_pm_captures : forall ps v tx i,
+  (i < 10)%nat ->
+  tx_get (store_captures true tx 0 (snd (pm_eval ps true v))) (itoa (N.of_nat i))
+  = if (i <? length (snd (pm_eval ps true v)))%nat then Some (nth i (snd (pm_eval ps true v)) [])
+    else tx_get tx (itoa (N.of_nat i)).
+Proof. exact pm_captures. Qed.
+Print Assumptions C15_pm_captures.
+
+(* ---- @validateUrlEncoding ---- *)
+Theorem C15_validateUrlEncoding_exact : forall v, vue_eval v = true <-> Spec.vue v.
+Proof. exact vue_eval_exact. Qed.
+Print Assumptions C15_validateUrlEncoding_exact.
+
+(* ---- @validateUtf8Encoding ---- *)
+(* matches exactly the values that are not a concatenation of well-formed UTF-8 sequences
+   (RFC 3629: scalar values only, shortest form); utf8.ValidString is modelled with
+   Utf8.decode_rune *)
+Theorem C15_validateUtf8Encoding_exact : forall v, vutf8_eval v = true <-> ~ Spec.utf8_wf v.
+Proof. exact vutf8_eval_exact. Qed.
+Print Assumptions C15_validateUtf8Encoding_exact.
+
+(* ---- @validateByteRange ---- *)
+Theorem C15_validateByteRange_exact : forall arg v,
+  arg <> [] ->
+  match run_vbr arg v with
+  | None => exists it, In it (split_byte 44 arg) /\ Spec.vbr_item_range it = None
+  | Some r => (forall it, In it (split_byte 44 arg) -> Spec.vbr_item_range it <> None)
+              /\ (r = true <-> Spec.vbr (split_byte 44 arg) v)
+  end.
+Proof. exact run_vbr_exact. Qed.
+Print Assumptions C15_validateByteRange_exact.
+
+(* ---- captures of @rx: TX.0-9 hold groups 0..9 (Go's regexp is an oracle giving idx) ---- *)
+Theorem C15_captures : forall idx v tx i,
+  (i < 10)%nat ->
+  tx_get (store_captures true tx 0 (snd (rx_eval (Some idx) true v))) (itoa (N.of_nat i))
+  = if (i <? ngroups idx)%nat then Some (rx_group idx v i) else tx_get tx (itoa (N.of_nat i)).
+Proof. exact rx_captures. Qed.
+Print Assumptions C15_captures.
+
+Theorem C15_no_capture_without_action : forall tx k caps, store_captures false tx k caps = tx.
+Proof. exact store_captures_off. Qed.
+Print Assumptions C15_no_capture_without_action.
+
+(* ---- negation and operator-name parsing ---- *)
 Theorem C15_negation_complement : forall r, exec_operator true r = negb (exec_operator false r).
 Proof. exact exec_operator_complement. Qed.
 Print Assumptions C15_negation_complement.
+
+Theorem C15_negation_rule : forall name arg ltbl rxm capturing tx v,
+  name <> [] -> forallb plain name = true ->
+  rule_eval (33 :: 64 :: name ++ 32 :: arg) ltbl rxm capturing tx v
+  = match rule_eval (64 :: name ++ 32 :: arg) ltbl rxm capturing tx v with
+    | None => None
+    | Some (m, tx') => Some (negb m, tx')
+    end.
+Proof. exact rule_negation. Qed.
+Print Assumptions C15_negation_rule.
+
+Theorem C15_parse_default_rx : forall o,
+  hd0 o <> 64 -> hd0 o <> 33 -> parse_operator o = (str "@rx", str "rx", trim_space o).
+Proof. exact parse_operator_default_rx. Qed.
+Print Assumptions C15_parse_default_rx.
+
+Theorem C15_parse_bang_rx : forall o,
+  o <> [] -> hd0 o <> 64 -> parse_operator (33 :: o) = (str "!@rx", str "rx", trim_space o).
+Proof. exact parse_operator_bang_rx. Qed.
+Print Assumptions C15_parse_bang_rx.
